@@ -938,16 +938,19 @@ class Interp:
             return None
         f = v.func
         name = f.attr
-        if name in NO_INLINE or name in self.no_inline:
+        explicit_base = bool(v.args) and isinstance(v.args[0], ast.Name) and v.args[0].id == 'self' \
+            and not (isinstance(f.value, ast.Name) and f.value.id == 'self')
+        if (name in NO_INLINE and not (explicit_base and name == 'update')) or name in self.no_inline:
             return None
         callee = None
         explicit_self = False
-        if name == '__init__' and v.args and isinstance(v.args[0], ast.Name) and v.args[0].id == 'self' \
-                and not (isinstance(f.value, ast.Name) and f.value.id == 'self'):
-            # Base.__init__(self, ...)
+        if v.args and isinstance(v.args[0], ast.Name) and v.args[0].id == 'self' \
+                and not (isinstance(f.value, ast.Name) and f.value.id == 'self') \
+                and isinstance(self.model.resolve_name(self.module, f.value), Class):
+            # Base.__init__(self, ...)  /  Base.update(self, x, ...): an explicit call of a base-class method on this node
             base = self.model.resolve_name(self.module, f.value)
             if isinstance(base, Class):
-                callee = base.find('__init__')
+                callee = base.find(name)
                 explicit_self = True
         elif isinstance(f.value, ast.Name) and f.value.id == 'self':
             callee = self.resolve_self_method(name)
